@@ -105,7 +105,7 @@ class LockEngine(Engine):
       elif r < 0.40 and depth < 3:
         body = self.gen_ops(rng, regs, depth + 1, rng.randint(0, 3))
         if rng.random() < 0.4:
-          body.insert(rng.randint(0, len(body)), ['raise'])
+          body.insert(rng.randint(0, len(body)), ['raise'] if rng.random() < 0.6 else ['raise', 'base'])
         ops.append(['unlock', body])
       elif r < 0.58:
         v = ginm.gen_plain(rng, 1)
